@@ -326,6 +326,15 @@ Theorem C20_file_results_independent_of_descriptor : forall n m parse app_ok sch
 Proof. exact file_results_independent_of_descriptor. Qed.
 Print Assumptions C20_file_results_independent_of_descriptor.
 
+(* ---- the open() requests: (path, flags, mode) as documented — the driver compares every open()
+   json_util.c makes with these constants ---- *)
+Theorem C20_open_requests_as_documented : forall p,
+  from_file_request p = mkreq p (mkofl O_RDONLY false false false false) 0 None
+  /\ to_file_request p = mkreq p (mkofl O_WRONLY true true false false) 0 (Some (6 * 64 + 4 * 8 + 4))
+  /\ rq_other_bits (from_file_request p) = 0 /\ rq_other_bits (to_file_request p) = 0.
+Proof. exact open_requests_as_documented. Qed.
+Print Assumptions C20_open_requests_as_documented.
+
 (* ---- non-vacuity ---- *)
 
 Theorem C20_write_nonvacuous :
